@@ -251,18 +251,26 @@ Definition f_pass (k : fkb) (roots : list nat) (d : dir) (src : option nat) (s :
             (f_traversal k roots d src) (s, 0).
 
 Record finfer_result := FIR { fir_state : fstate; fir_steps : nat; fir_amount : Q; fir_fuel_out : bool }.
+(* Model.shape[1]: number of groundings over all registered formula objects *)
+Definition total_rows (reg : list nat) (s : fstate) : nat := fold_left (fun n i => (n + length (ftab s i))%nat) reg 0%nat.
 Fixpoint f_infer_loop (fuel : nat) (k : fkb) (roots : list nat) (dirs : option dir) (src : option nat)
          (max_steps : nat) (s : fstate) (steps : nat) (total : Q) : finfer_result :=
   match fuel with
   | O => FIR s steps total true
   | S f =>
+      let reg := postorder (fshadow k) roots in
       let r := match dirs with
                | None => let r1 := f_pass k roots Up src s in
                          let r2 := f_pass k roots Down src (fst r1) in
                          (fst r2, snd r1 + snd r2)
                | Some d => f_pass k roots d src s
                end in
-      let converged := match dirs with Some _ => true | None => infer_converged (snd r) end in
+      (* convergence: nothing moved AND (after the fix) no grounding was created during the step *)
+      let converged := match dirs with
+                       | Some _ => true
+                       | None => infer_converged (snd r) &&
+                                 (negb infer_requires_stable_groundings || Nat.eqb (total_rows reg (fst r)) (total_rows reg s))
+                       end in
       let total' := total + snd r in
       let steps' := S steps in
       if converged then FIR (fst r) steps' total' false
